@@ -272,6 +272,15 @@ class Endpoint:
             param = param_or_error  # noqa: PLW2901
 
             if param.param_schema is None:
+                endpoint.errors.append(
+                    ParseError(
+                        data=param,
+                        detail=(
+                            f"Parameter {param.name} has no schema (parameters described with `content` are not "
+                            f"supported), parameter will be omitted from generated client"
+                        ),
+                    )
+                )
                 continue
 
             unique_param = (param.name, param.param_in)
